@@ -56,6 +56,9 @@ def orObj (a b : Option Nat) : Option Nat :=
   | some x => some x
   | none => b
 
+/-- a call on another object that is only recorded (e.g. `out.push_data(data, t)`): the trace grows by its argument -/
+def recordPush {α} (trace : List α) (x : α) : Except Err (List α) := pure (trace ++ [x])
+
 /-- a user hook (`_initialize`, `_update`, …): leaves the component's status alone (`none`) or sets it (`some s`) -/
 def hook (o : Option Int) (st : Int) : Except Err Int := pure (o.getD st)
 
